@@ -96,11 +96,25 @@ def extract_syntax_tables():
     return attributes, settings, notes
 
 
+def extract_signals():
+    """the fatal signals and their numbers on this platform (src/signal.rs): enum variants without a `#[cfg(...)]` gate"""
+    src = open(os.path.join(C.REPO, "src", "signal.rs")).read()
+    m = re.search(r"pub\(crate\) enum Signal \{(.*?)\n\}", src, re.S)
+    if not m:
+        return None, ["signal enum not recognised in src/signal.rs"]
+    body = re.sub(r"#\[cfg\(any\((?:.|\n)*?\)\)\]\s*[A-Za-z]+ = \d+,", "", m.group(1))
+    sigs = [(n, int(v)) for n, v in re.findall(r"^\s*([A-Z][A-Za-z]*) = (\d+),", body, re.M)]
+    if len(sigs) < 3:
+        return None, ["signal enum not recognised in src/signal.rs"]
+    return sigs, []
+
+
 def regenerate():
     """Returns (changed, notes)."""
     functions, constants, names, limit, notes = extract()
     attributes, settings, notes2 = extract_syntax_tables()
-    notes = notes + notes2
+    signals, notes3 = extract_signals()
+    notes = notes + notes2 + notes3
     old = open(OUT).read() if os.path.exists(OUT) else ""
 
     def keep(tag):
@@ -144,7 +158,13 @@ def regenerate():
                      ",\n".join("  (%s, %s)" % (lean_str(n), lean_str(f)) for n, f in settings) + "]\n")
     else:
         parts.append(keep("settings"))
-    parts.append("-- END settings\n\nend Just.Generated\n")
+    parts.append("-- END settings\n\n-- BEGIN signals\n")
+    if signals is not None:
+        parts.append("/-- `enum Signal` on this platform: variant and number (src/signal.rs) -/\n"
+                     "def signalTable : List (String × Nat) := [" + ", ".join("(%s, %d)" % (lean_str(n), v) for n, v in signals) + "]\n")
+    else:
+        parts.append(keep("signals"))
+    parts.append("-- END signals\n\nend Just.Generated\n")
     new = "".join(parts)
     if new != old:
         os.makedirs(os.path.dirname(OUT), exist_ok=True)
